@@ -453,6 +453,124 @@ def foreignBindingsOf (orig : List Ent) : List Ent → List (Nat × Nat)
   | [] => []
   | e :: es => e.foreignBindings orig ++ foreignBindingsOf orig es
 
+/-! ### the name link of `bound_declaration` (round 6)
+
+`type_summary` prints `bound_declaration(tb, link_name=True)` for every member of the type's `boundprocs` - the
+bindings the type declares *and* the ones `correlate` made it inherit (`inheritProject`).  The name is
+`str(tb)` (a link iff `tb.visible`, `__str__`) when the macro's guard holds, the plain name otherwise; the URL of
+a binding is an anchor on the page of the type that **declares** it (`get_url` goes through `parent`), which
+for an inherited binding is not the type whose summary is being printed.  On the type's own page
+(`bound_info`) the macro is called without `link_name`: never a link. -/
+
+/-- the decision of the macro; `guarded` = the macro tests `tb.parent.visible` (the code as it is since
+    `fix: do not link an inherited binding to the page of a type that is not documented`), `false` = it
+    does not (the code before that repair) -/
+def bindNameLink (guarded linkName tbVisible dVisible external : Bool) : Bool :=
+  linkName && tbVisible && (external || !guarded || dVisible)
+
+/-- one row of the regenerated table `boundDeclProbe` (the real macros rendered on real objects of the probe
+    project): (site `summary` | `info`, the binding is inherited, `tb.visible`, `visible` of the declaring
+    type, `external_url` set, what the name was rendered as) -/
+def boundDeclRowOk (guarded : Bool) (r : String × Bool × Bool × Bool × Bool × String) : Bool :=
+  r.2.2.2.2.2 == (if bindNameLink guarded (r.1 == "summary") r.2.2.1 r.2.2.2.1 r.2.2.2.2.1 then
+                    (if r.2.2.2.2.1 then "link:external" else "link:declaring-type-page") else "name")
+
+/-- is the name of a binding declared by type `d` a link in a type summary when the tree `q` is rendered?  The
+    binding has a URL only when the declaring type has a page (`get_url`: a type inside a procedure has none). -/
+def bindLinked (guarded : Bool) (orig q : List Ent) (bVisible : Bool) (d : Nat) : Bool :=
+  bindNameLink guarded true bVisible ((visibleIdsOf q).contains d) false
+  && (if guarded then (pageIds q).contains d else (pageIds orig).contains d)
+
+/-- among the members of type `t`: (type whose summary it is, binding, declaring type = page linked) -/
+def Ents.bindLinksIn (g : Bool) (orig q : List Ent) (t : Nat) : Ents → List (Nat × Nat × Nat)
+  | .nil => []
+  | .cons e rest =>
+    (if e.info.kind == .boundproc then
+       match parentIn e.info.id orig with
+       | some d => if bindLinked g orig q e.info.visible d then [(t, e.info.id, d)] else []
+       | none => []
+     else []) ++ rest.bindLinksIn g orig q t
+
+mutual
+def Ent.bindLinks (g : Bool) (orig q : List Ent) : Ent → List (Nat × Nat × Nat)
+  | .mk i cs => (if i.kind == .type then cs.bindLinksIn g orig q i.id else []) ++ cs.bindLinks g orig q
+def Ents.bindLinks (g : Bool) (orig q : List Ent) : Ents → List (Nat × Nat × Nat)
+  | .nil => []
+  | .cons e rest => e.bindLinks g orig q ++ rest.bindLinks g orig q
+end
+
+/-- every binding name that is a link in the summary of a type of the tree; `orig` = the project as parsed
+    (who declares what), `q` = the tree that is rendered (who is `visible`, who has a page) -/
+def bindLinksOf (g : Bool) (orig q : List Ent) : List Ent → List (Nat × Nat × Nat)
+  | [] => []
+  | e :: es => e.bindLinks g orig q ++ bindLinksOf g orig q es
+
+/-! ### graph nodes (round 6)
+
+Every node class of `ford/graphs.py` (module, submodule, type, procedure - type-bound procedures and interfaces
+included -, program, block data, file) runs `BaseNode.__init__` first: the node carries a `URL` attribute (a link
+in the rendered SVG) only if the entity has a URL and is shown; a type-bound procedure is shown only if the type
+that declares it is shown as well (its URL is an anchor on that type's page).  Nodes are made for entities that
+`prune()` removed, too (a called private procedure, the private type of a component): those never got
+`visible = True`. -/
+
+/-- the decision of `BaseNode.__init__`; `vis` / `pvis` = the `visible` attribute of the entity / of its parent:
+    "true" | "false" | "absent" -/
+def nodeLinked (hasUrl isBinding : Bool) (vis pvis : String) : Bool :=
+  hasUrl && vis != "false" && (!isBinding || pvis != "false")
+
+/-- one row of the regenerated table `graphNodeProbe`: (class, is a type-bound procedure, has a URL, `visible`,
+    parent's `visible`, the node carries `URL`, `URL` = parent_dir + the entity's URL (or both absent)) -/
+def graphNodeRowOk (r : String × Bool × Bool × String × String × Bool × Bool) : Bool :=
+  let linked := nodeLinked r.2.2.1 r.2.1 r.2.2.2.1 r.2.2.2.2.1
+  r.2.2.2.2.2.1 == linked && r.2.2.2.2.2.2 == (linked || !r.2.2.1)
+
+/-- kinds of entities the graphs make nodes of -/
+def nodeKind : Kind → Bool
+  | .module | .submodule | .program | .blockdata | .file | .type | .subroutine | .function | .modproc
+  | .generic | .iface | .absint | .boundproc => true
+  | _ => false
+
+def flagStr (b : Bool) : String := if b then "true" else "false"
+
+/-- the page the node of entity `i` links to when `q` is the tree `prune` left (`orig`: who declares what) -/
+def nodeUrl (orig q : List Ent) (i : Info) : Option Nat :=
+  if i.kind == .boundproc then
+    match parentIn i.id orig with
+    | some d =>
+      if nodeLinked ((pageIds q).contains d) true (flagStr ((visibleIdsOf q).contains i.id))
+           (flagStr ((visibleIdsOf q).contains d)) then some d else none
+    | none => none
+  else if nodeLinked ((pageIds q).contains i.id) false (flagStr ((visibleIdsOf q).contains i.id)) "absent" then
+    some i.id
+  else if isProc i.kind then
+    -- a procedure without a page of its own (an internal procedure): its URL is an anchor on the page of the
+    -- entity it stands in (`get_url` goes through `parent`); only its own `visible` is consulted
+    match parentIn i.id orig with
+    | some par =>
+      if nodeLinked ((pageIds q).contains par) false (flagStr ((visibleIdsOf q).contains i.id)) "absent" then some par
+      else none
+    | none => none
+  else none
+
+mutual
+/-- (entity, page its node links to) over a whole tree - removed entities included -/
+def Ent.nodeUrls (orig q : List Ent) : Ent → List (Nat × Nat)
+  | .mk i cs =>
+    (if nodeKind i.kind then
+       match nodeUrl orig q i with
+       | some pg => [(i.id, pg)]
+       | none => []
+     else []) ++ cs.nodeUrls orig q
+def Ents.nodeUrls (orig q : List Ent) : Ents → List (Nat × Nat)
+  | .nil => []
+  | .cons e rest => e.nodeUrls orig q ++ rest.nodeUrls orig q
+end
+
+def nodeUrlsOf (orig q : List Ent) : List Ent → List (Nat × Nat)
+  | [] => []
+  | e :: es => e.nodeUrls orig q ++ nodeUrlsOf orig q es
+
 /-! ### `extends(...)` in a type summary / on a type page
 
 `type, extends({{ dtype.extends | relurl }})` prints the extended type through `__str__`: a link iff that type
